@@ -686,6 +686,11 @@ func callsNamedR(fn *ssa.Function, name string) []*ssa.Call {
 // paramFieldsUp: the labels of v in the vocabulary of the function whose region v's function belongs to: labels rooted
 // in a bound helper parameter are replaced by the labels of the argument at the call site.
 func paramFieldsUp(v ssa.Value) []string {
+	if p, ok := stripConv(v).(*ssa.Parameter); ok {
+		if a, bound := helperArg[p]; bound && a != v {
+			return paramFieldsUp(a)
+		}
+	}
 	owner := valueParent(v)
 	if owner == nil {
 		return nil
